@@ -7,17 +7,17 @@ cd /verif
 OUT=seeded/RESULTS.tsv
 echo -e "seed\tapplies\tcheck\texit\tseconds\tsignature" > $OUT
 for d in seeded/*/; do
-  P=$(basename $d)
+  N=$(basename $d); P=${N:0:3}
   [ -f $d/patch.diff ] || continue
   if ! git -C /repo apply --check /verif/$d/patch.diff 2>/dev/null; then
-    echo -e "$P\tno (the code it changes was repaired/rewritten since)\t-\t-\t-\t-" >> $OUT; continue
+    echo -e "$N\tno (the code it changes was repaired/rewritten since)\t-\t-\t-\t-" >> $OUT; continue
   fi
   git -C /repo apply /verif/$d/patch.diff
   s=$(date +%s)
   VERIF_EVIDENCE_DIR=/tmp/verif-mut-evidence VERIF_SEED=${VERIF_SEED:-1} timeout 1500 ./check $P quick > /tmp/matrix-$P.log 2>&1; rc=$?
   e=$(( $(date +%s) - s ))
   sig=$(grep -a -m1 -o 'signature=[^ ]*' /tmp/matrix-$P.log | cut -c11-)
-  echo -e "$P\tyes\t$P\t$rc\t$e\t$sig" >> $OUT
+  echo -e "$N\tyes\t$P\t$rc\t$e\t$sig" >> $OUT
   git -C /repo checkout -- .
   git clean -fdq replays/ 2>/dev/null
 done
